@@ -62,6 +62,38 @@ def thr_jobs_each(ctx: Ctx, jobs: list[dict], tag: str) -> list[dict]:
     return out
 
 
+def path_class_accounts(ctx: Ctx, rng: random.Random, cap: int, tag: str) -> dict[str, list[str]]:
+    """Per Bundesbank method: the all-zero account plus one account per PATH CLASS. Candidates
+    (special-case accounts, random accounts with 0-3 leading zeros, some with every check digit) are run
+    once with line tracing; one account per distinct (set of executed package lines, kind of outcome) is
+    kept - so a path that raises half-way through a multi-variant method is chosen next to the paths it
+    could disturb. The classification only CHOOSES inputs, it never judges."""
+    cands = {}
+    for meth in c07.METHODS:
+        special = c07.boundary_accounts(meth, rng)
+        rng.shuffle(special)
+        pool = special[:40]
+        for k in range(24 if ctx.quick else 80):
+            a = "0" * (k % 4) + "".join(rng.choice("0123456789") for _ in range(10 - k % 4))
+            pool.append(a)
+            if k % 3 == 0:
+                pool += c07.with_every_check_digit(a, meth)
+        cands[meth] = list(dict.fromkeys(pool))
+    cls = thr_jobs(ctx, [{"mode": "classify", "calls": [{"op": "algo.validate", "method": meth, "account": cps(a)}
+                                                         for a in cands[meth]]} for meth in c07.METHODS], tag + "-classify")
+    out = {}
+    for meth, res in zip(c07.METHODS, cls):
+        seen, accts = set(), ["0000000000"]
+        for a, c in zip(cands[meth], res["classes"]):
+            key = (c["sig"], c["kind"])
+            if key not in seen and a not in accts and len(accts) < cap:
+                seen.add(key)
+                accts.append(a)
+        ctx.coverage.setdefault("path_classes_per_method", {})[meth] = len(accts)
+        out[meth] = accts
+    return out
+
+
 def menu(ctx: Ctx, rng: random.Random) -> tuple[list[dict], dict]:
     """Calls, grouped by the algorithm object they are routed to."""
     callsl, by_obj = [], {}
@@ -70,13 +102,10 @@ def menu(ctx: Ctx, rng: random.Random) -> tuple[list[dict], dict]:
         callsl.append(op)
         by_obj.setdefault(obj, []).append(len(callsl) - 1)
 
-    per = 3 if ctx.quick else 5
+    chosen = path_class_accounts(ctx, rng, 5 if ctx.quick else 9, "c14")
     for m in c07.METHODS:
-        seen = 0
-        for _ in range(per):
-            acct = "".join(rng.choice("0123456789") for _ in range(10))
+        for acct in chosen[m][1:] + chosen[m][:1]:
             add({"op": "algo.validate", "method": m, "account": cps(acct)}, "DE:" + m)
-        add({"op": "algo.validate", "method": m, "account": cps("0000000000")}, "DE:" + m)
     # through the public API: German IBANs of banks using scratch-parking methods, national algorithms
     banks = c07.de_bank_methods()
     for code, m in sorted(banks.items())[:: max(1, len(banks) // (25 if ctx.quick else 200))]:
